@@ -74,6 +74,30 @@ class Ctx:
         except FileNotFoundError:
             pass
         viol = [i for i in self.instances if not i["ok"]]
+        # anchor drift: the rules of this property are anchored in functions of the reference tree; when one of those was renamed
+        # beyond recognition, inlined into its callers, removed, or changed its parameter list, what the rules report about it
+        # is not a verdict about behaviour. Such a run is ANALYSIS-BROKEN (exit 2): neither a pass nor a violation.
+        drift = {}
+        for c, pr in self.configs.items():
+            for nm, why in getattr(pr, "drift", {}).items():
+                drift.setdefault(nm, why)
+        drifted = {}
+        if drift and viol:
+            import re as _re
+            text = ""
+            for fn_ in ("%s.py" % self.pid, "shared.py"):
+                try:
+                    with open(os.path.join(VERIF, "rules", fn_)) as f:
+                        text += f.read()
+                except OSError:
+                    pass
+            used = set(_re.findall(r"[A-Za-z_][A-Za-z_0-9]*", text))
+            drifted = {nm: why for nm, why in drift.items() if nm in used}
+        if drifted:
+            self.broken.append("reference function(s) this property's rules are anchored in have drifted: %s — %d rule instance(s) cannot be decided on this tree: %s" % (
+                "; ".join("%s %s" % (nm, why) for nm, why in sorted(drifted.items())), len(viol), ", ".join(sorted({v["rule"] for v in viol}))))
+            self.undecided = viol
+            viol = []
         reported, suppressed = [], []
         for v in viol:
             base = v["key"]
